@@ -89,7 +89,7 @@ type locEvent struct {
 	Msg   string   `json:"msg"`
 }
 
-func chars(s string) []string {
+func chars10(s string) []string {
 	out := make([]string, len(s))
 	for i := range s {
 		out[i] = s[i : i+1]
@@ -180,7 +180,7 @@ func (p *seqPool) get(seq string) (obiapat.ApatSequence, error) {
 // runScenario calls every observable of the API on (pattern, sequence, window).  order permutes
 // the calls (each of them resets and refills the same C-side hit stacks).
 func runScenario(pt, seq string, e, indel, b, l int, pool *seqPool, order int) apatEvent {
-	ev := apatEvent{K: "apat", Pt: chars(pt), S: seqCodes(seq), E: e, Indel: indel, B: b, L: l,
+	ev := apatEvent{K: "apat", Pt: chars10(pt), S: seqCodes(seq), E: e, Indel: indel, B: b, L: l,
 		Find: [][3]int{}, Rcfind: [][3]int{}, Filt: [][3]int{}, All: [][3]int{}}
 	pat, err := obiapat.MakeApatPattern(pt, e, indel == 1)
 	if err != nil {
@@ -789,7 +789,7 @@ func recordLocate(env *Env, rng *rand.Rand) {
 	if len(seq) == 0 {
 		seq = append(seq, "acgt"[rng.Intn(4)])
 	}
-	ev := locEvent{K: "loc", Src: "T", Pt: chars(pt), S: seqCodes(string(seq))}
+	ev := locEvent{K: "loc", Src: "T", Pt: chars10(pt), S: seqCodes(string(seq))}
 	ev.Cls = fmt.Sprintf("loc/left%d/right%d", min(len(left), 1), min(len(right), 1))
 	ev.Panic, ev.Msg = guard(func() {
 		from, to, err := obialign.LocatePattern("verif", []byte(pt), seq)
